@@ -16,11 +16,15 @@ def table():
         sid = os.path.basename(os.path.dirname(mp))
         res = m.get("results", {})
         caught = [f"{p} ({r['tier']}: {r['how']})" for p, r in sorted(res.items()) if r.get("caught")]
-        missed = [p for p, r in sorted(res.items()) if not r.get("caught") and p == m["breaks"]]
-        status = "; ".join(caught) if caught else "**not caught**"
+        if m["breaks"] is None:
+            silent = [p for p, r in res.items() if not r.get("caught")]
+            status = (f"silent on all {len(silent)} checks run" if not caught else
+                      "**alarm** (property still holds): " + "; ".join(caught) + f"; silent on {len(silent)}")
+        else:
+            status = "; ".join(caught) if caught else "**not caught**"
         if m.get("note"):
             status += " — " + m["note"]
-        rows.append(f"| `{sid}` | {m['breaks']} | {m['change']} | {m['needs']} | {status} |")
+        rows.append(f"| `{sid}` | {m['breaks'] or 'none (control)'} | {m['change']} | {m['needs']} | {status} |")
     head = ("| seeded change | breaks | what it does | needs to manifest | caught by |\n"
             "|---|---|---|---|---|\n")
     return head + "\n".join(rows) + "\n"
